@@ -110,7 +110,13 @@ fn threshold_history(acc: &mut Acc, r: &mut Rng, kind: Kind, variant: u64, steps
                 _ => Some(t.saturating_add(r.below128(1000)).saturating_sub(500)),
             };
             acc.count("c15.threshold-deposit");
+            wd.reverse_order = r.chance(1, 2);
+            if wd.reverse_order {
+                acc.count("provide.assets-listed-in-reverse-pool-order");
+                wd.log("   (next deposit lists its assets in reverse pool order)".to_string());
+            }
             monitored_provide(acc, &mut wd, user, d, None, slip);
+            wd.reverse_order = false;
         }
         acc.evals += 1;
         acc.class_only(&[kind as u64, variant % 4, mag_class(obs.r[0]) / 2, r.below(1)]);
@@ -146,7 +152,7 @@ pub fn run(ctx: &Ctx) -> (CheckMeta, Acc) {
         level: "exploration",
         rule: "threshold-dense histories on real constant-product and stableswap pairs: for every swap the realised ratio rho (spread/(gross+spread), or (expected-gross)/expected with a belief price placed within +-10% of the realised price) is computed from the Simulation with independent 18-decimal integer math and max_spread is drawn from {rho-1e-18, rho, rho+1e-18, 0.5-1e-18, 0.5, 0.5+1e-18, None, 0.01, >1, ...}; deposits use a tolerance on / next to the documented bound. Both directions are judged on every outcome: L1/L2 an accepted swap satisfied its limit (default 1%, cap 50%), L3 a swap rejected with the slippage error really exceeded it, L4/L5 likewise for deposit tolerances, L6/L7 router minimum_receive = simulated passes and simulated+1 is rejected (receivers with pre-existing balances, 1-3 hops), plus the trio swaps of C04's histories. Comparisons are made at the interface's own 1e-18 resolution.".to_string(),
         assumptions: vec!["the (offer/p)(1-s) - 1 unit form of the belief-price bound is judged only where the 18-decimal resolution is finer than one base unit (expected <= 1e18)".into()],
-        obligations: vec!["check.C15.swap-accepted".into(), "check.C15.swap-rejected-for-slippage".into(), "c15.swap-limit-within-1e-18-of-realised-ratio".into(), "check.C15.deposit-accepted".into(), "check.C15.deposit-rejected-for-slippage".into(), "check.C15.route-accepted-with-minimum-receive".into(), "check.C15.route-rejected-for-minimum-receive".into(), "check.C15.trio-swap-accepted".into(), "route.ok.receiver-with-pre-existing-balance".into()],
+        obligations: vec!["check.C15.swap-accepted".into(), "check.C15.swap-rejected-for-slippage".into(), "c15.swap-limit-within-1e-18-of-realised-ratio".into(), "check.C15.deposit-accepted".into(), "check.C15.deposit-rejected-for-slippage".into(), "check.C15.route-accepted-with-minimum-receive".into(), "check.C15.route-rejected-for-minimum-receive".into(), "check.C15.trio-swap-accepted".into(), "route.ok.receiver-with-pre-existing-balance".into(), "provide.assets-listed-in-reverse-pool-order".into()],
     };
     (meta, total)
 }
